@@ -85,3 +85,17 @@ Fixpoint uses_ok (l : list ievent) : bool :=
 (* inputs that designate existing cells: dividing positions inside the list and distinct *)
 Definition inputs_ok (inp : inputs) (p : pop) : Prop :=
   NoDup (in_div inp) /\ (forall m, In m (in_div inp) -> m < length (p_cells p)).
+
+(* position of a phase in an order (None if absent) *)
+Fixpoint phase_pos (ph : phase) (l : list phase_entry) (k : nat) : option nat :=
+  match l with
+  | [] => None
+  | e :: r => if phase_eqb (pe_phase e) ph then Some k else phase_pos ph r (S k)
+  end.
+Definition before (a b : phase) (l : list phase_entry) : bool :=
+  match phase_pos a l 0, phase_pos b l 0 with Some i, Some j => Nat.ltb i j | _, _ => false end.
+(* the (cell list index, node index) pairs stored by the contact phase are consumed (polarization update, time integration)
+   after the divider has finished changing the list and before the removal erases from it; the renumbering follows the erase *)
+Definition stored_indices_used_between_list_changes (l : list phase_entry) : bool :=
+  before PDivide PContact l && before PContact PPolarize l && before PContact PIntegrate l &&
+  before PPolarize PRemove l && before PIntegrate PRemove l && before PRemove PRenumber l && before PRenumber PCount l.
